@@ -37,18 +37,7 @@ let parse_op tok =
        | None -> failwith "hdr")
   | _ -> failwith "op"
 
-(* a raw store frame whose uint32 length sum wraps: the server reads outside the frame (undefined behaviour; the model's
-   take/drop do not describe it, coq/C10/Wrap.v store_check_wraps). Never generated; docs/C10_wrap.case *)
-let wraps tok =
-  String.length tok > 2 && tok.[0] = 'W' &&
-  (match parse_op tok with
-   | ORaw (_, h, _) ->
-       let kl = int_of_n h.h_u2 and dl = int_of_n h.h_u3 and tl = int_of_n h.h_u4 and sz = int_of_n h.h_size in
-       int_of_n h.h_op = 3 && kl <> 0 && kl + dl + tl <> sz && (kl + dl + tl) land 0xffffffff = sz
-   | _ -> false)
-
 let history ns flags ops =
-  if List.exists wraps ops then "H UB-WRAP" else
   let l1 = List.init (String.length flags) (fun i -> flags.[i] = '1' || flags.[i] = 'R') in
   (* r / R: a node configured with the server list in reverse order (NetDefs.rstep) *)
   let reversed c = let i = int_of_nat c in i < String.length flags && (flags.[i] = 'r' || flags.[i] = 'R') in
@@ -76,10 +65,11 @@ let history ns flags ops =
       let (r, x1) =
         (match client_of o, o with
          | Some c, _ when reversed c -> let (a, w1) = rstep !x.nw o in (NObs a, { nw = w1; nw_up = !x.nw_up })
-         (* failure after >= 1 bytes of the answer header: the retry is refused, the fetch is a miss (NGarbled) *)
-         | _, OFetch (c, k, _) when inj >= 1 -> nstep !x (NGarbled (c, k))
-         (* (a failure before any byte of the answer makes the request run once or twice, depending on whether the server had read
-            it before the connection was reset - NetProofs.transmit_any_schedule allows both; not generated before a store) *)
+         (* failure after >= 1 bytes of the answer: the server had executed the request; the retry sends the request again
+            (since /repo d350cd9) and it is executed a second time - visible only in the generation of a stored record.
+            (After 0 bytes it runs once or twice, depending on whether the server had read the request before the connection
+            was reset - NetProofs.transmit_any_schedule allows both; not generated before a store.) *)
+         | _, OStore _ when inj >= 1 -> nstep (snd (nstep !x (NOp o))) (NOp o)
          | _ -> nstep !x (NOp o)) in
       x := x1;
       let w1 = x1.nw in
@@ -120,7 +110,7 @@ let () = main_loop (function
        | FData (v, t, dl, gen) -> "1." ^ hex_of_bytes v ^ "." ^ string_of_z dl ^ "." ^ show_trigs (mkset t) ^ "." ^ string_of_n gen)
   | "P" :: "Z" :: kind :: rest ->
       (* failure in the middle of the answer: the header object after the failed read, the request the second attempt sends
-         (NetDefs.overlay / retry_request, the functions messenger::transmit is modelled with), and what the client makes of
+         (NetDefs.overlay / second_request, the functions messenger::transmit is modelled with), and what the client makes of
          the second answer *)
       let (h, data), cut, rh, rp, dec =
         (match kind, rest with
@@ -136,14 +126,13 @@ let () = main_loop (function
          | _ -> failwith "probe") in
       let (ah, ap) = reply rh rp in
       let stream = hdr_bytes ah @ ap in
+      (* what the failed read left in the header object; the second attempt restores the request header (NetDefs.second_request) *)
       let hb = if cut >= 40 then take (n_of_int 40) stream else overlay (take (n_of_int cut) stream) (hdr_bytes h) in
-      (match retry_request hb data with
+      (match second_request h hb data with
        | None -> "P MODEL-BAD-HEADER"
        | Some (h2, p2) ->
-           let second = if int_of_n h2.h_op > 4 then ({ h_op = n_of_int 5; h_size = N0; h_f0 = N0; h_f1 = N0; h_u0 = N0; h_u1 = N0;
-                                                        h_u2 = N0; h_u3 = N0; h_u4 = N0; h_u5 = N0 }, []) else (ah, ap) in
            "P " ^ show_frame (h, data) ^ " " ^ hex_of_bytes (hdr_bytes h2) ^ "." ^ hex_of_bytes p2 ^ "." ^ string_of_n h2.h_size ^
-           " " ^ dec second)
+           " " ^ dec (ah, ap))
   | ["P"; "S"; k; v; dl; t; _; _] ->
       "P " ^ show_frame (enc_store (bytes_of_hex k) (bytes_of_hex v) (mkset (parse_trigs t)) (z_of_string dl)) ^ " r"
   | ["P"; "R"; t; _; _] -> "P " ^ show_frame (enc_rise (bytes_of_hex t)) ^ " r"
